@@ -34,7 +34,7 @@ from ..common import rng_for, b2j
 
 LEVEL = "exploration"
 SHARDS = {"quick": 1, "thorough": 16}
-REQUIRED = ("same_name_pairs_defined", "same_name_operations", "same_name_bystander_repacks", "single_preemption_schedules", "single_preemption_schedules_inside_run_time_selection_or_expression",
+REQUIRED = ("dropped_packets_with_forced_automatic_fields", "same_name_pairs_defined", "same_name_operations", "same_name_bystander_repacks", "single_preemption_schedules", "single_preemption_schedules_inside_run_time_selection_or_expression",
             "free_thread_declarations_with_a_shared_options_table", "pack_outputs_compared_with_reference_encoding", "bytearray_values_assigned", "history_operations", "bystander_comparisons", "alias_scans", "repeated_pack_checks", "ops_unpack", "ops_construct",
             "ops_set_leaf", "ops_list_append", "ops_set_nested", "ops_pack", "interleavings_executed", "thread_results_compared",
             "free_thread_operations", "context_switches_in_bisturi", "f2_probe_runs")
@@ -272,6 +272,23 @@ def history_part(run, bench, rng, nops):
             donors.append((raw, mr.value))
     lives = []
     history = []
+    # packets that no longer exist must not matter either: a few packets get their automatic fields forced by hand and are dropped
+    # before the history starts (later packets are likely to be allocated where they lived)
+    described = [f for f in fam["decls"][root]["fields"] if "describe" in f]
+    if described:
+        import gc
+        for v in ("g", "d"):
+            for _i in range(3):
+                try:
+                    ghost = bench.root(v)()
+                    for f in described:
+                        setattr(ghost, f["name"], 9)
+                except Exception:
+                    pass
+                ghost = None
+        gc.collect()
+        run.count("dropped_packets_with_forced_automatic_fields")
+        history.append(["(three packets per variant built, their automatic fields forced to 9, dropped)"])
     list_fields = [f for f in fam["decls"][root]["fields"] if "rep" in f and f["t"] in ("int", "data")]
     # selectors with several packet alternatives: start with parses that select A, B, A (same class variant)
     forced = []
